@@ -279,6 +279,22 @@ check('C13', 'specs/WalletCrypt.tla + specs/WalletCryptTrace.tla + specs/AtomicS
       'TLC exhaustive models (symbolic crypto; generic crash file-system) + behaviours replayed on the real wallet + TLC trace validation of observations and recorded file-system operations',
       'DESIGN.md 5/C13')
 
+check('C07', 'specs/Headers.tla + specs/HeadersTrace.tla + harness/c07_headers.py',
+      'TLC explores every history of connect, close, crash cut, damage, open and chunk fetch in Headers.tla (scaled: stride 3, chunk 4, chains of at most 9 '
+      'headers, one fork, every flaw, cut and damage class; 377 k states quick, 3.7 M thorough) and proves every clause of the property for the '
+      'transcription of header.py with its four repairs, and produces a counterexample as soon as any one repair is switched off (code-as-found negative '
+      'controls). 150 TLC -simulate behaviours with the real constants are replayed 1:1 on the real Headers object (drift reported). About 1350 histories '
+      'run on the real Headers object over real files with real mined 112-byte headers (chains of 1000-1100 headers over a synthetic checkpoint table): '
+      'every residue of the repair stride, every cut class, damage at every position class x every header field, forks, flawed batches (wrong prev / '
+      'bits / insufficient PoW), split deliveries, checkpointed chunk fetches and a rounding-gap header; each history is judged by TLC (HeadersTrace.tla) '
+      'clause by clause on the observed chain, the per-header truth (links, demanded bits, meets target) supplied by the driver\'s own integer '
+      'implementation of the LBRY consensus rules.',
+      'Trusted: the driver\'s transcription of lbrycrd\'s retarget, compact and PoW-hash rules (it accepts the 20 main-net headers shipped in the upstream '
+      'test module). Easy max_target 2^248-1 and the driver\'s own genesis set through instance attributes. Damage = an overwrite after which the header no '
+      'longer validates where it stands; a crash leaves a prefix of the file. Ledger.update_headers (the reorganisation driver) is not exercised.',
+      'TLA+/TLC exhaustive model with switchable code-as-found transcription + 1:1 replay of simulated behaviours + TLC trace validation of real executions with mined headers',
+      'DESIGN.md 5/C07')
+
 NOT_YET = 'check not built yet in this round (design in DESIGN.md section 5); will be claimed once its driver exists'
 ALL = [f'C{i:02d}' for i in range(1, 21)]
 
